@@ -25,13 +25,40 @@ META = {
 }
 FAMS = ["asttree"]
 
-_W = lambda kind, field, extra="": [
-    {"kind": "known", "signature": {"fam": "asttree", "op": op, "cause": "not-visited", "kind": kind, "field": field},
-     "what": "astutil.%s never visits %s.%s%s" % (op, kind, field, extra)} for op in ("Walk", "Inspect")]
-_P = lambda ops, kind, why: [
-    {"kind": "known", "signature": {"fam": "asttree", "op": op, "cause": "panic", "kind": kind}, "what": "astutil.%s panics on %s: %s" % (op, kind, why)}
-    for op in ops]
-PROPOSED_KNOWN = []   # filled in below, after the defects were demonstrated (see the report)
+def _walk(kind, field, extra=""):
+    return [{"kind": "known", "signature": {"fam": "asttree", "op": op, "cause": "not-visited", "kind": kind, "field": field},
+             "what": "astutil.%s never visits %s.%s%s" % (op, kind, field, extra)} for op in ("Walk", "Inspect")]
+
+
+def _panic(ops, kind, why):
+    return [{"kind": "known", "signature": {"fam": "asttree", "op": op, "cause": "panic", "kind": kind},
+             "what": "astutil.%s panics on %s: %s" % (op, kind, why)} for op in ops]
+
+
+# Defects of astutil demonstrated by this check on the unchanged tree (minimal inputs and fixes in the report).
+PROPOSED_KNOWN = (
+    _walk("Call", "Func", " (the called function expression; walk_test.go pins this)")
+    + _walk("Func", "Ident") + _walk("Func", "Type") + _walk("Func", "Body", " (the Block node itself; only its children are walked)")
+    + _walk("FuncType", "Parameters", " identifiers (only parameter types are walked)")
+    + _walk("FuncType", "Result", " identifiers (only result types are walked)")
+    + _walk("TypeAssertion", "Type") + _walk("Raw", "Text")
+    + _walk("Switch", "LeadingText") + _walk("TypeSwitch", "LeadingText") + _walk("Select", "LeadingText")
+    + _walk("Import", "Ident") + _walk("Import", "For")
+    + _panic(("Walk", "Inspect"), "StructType", "no case in Walk's type switch")
+    + _panic(("Walk", "Inspect"), "TypeDeclaration", "no case in Walk's type switch")
+    + _panic(("CloneNode", "CloneExpression"), "StructType", "handled in CloneNode after 'case ast.Expression', which sends it to CloneExpression that has no case for it")
+    + _panic(("CloneNode",), "TypeDeclaration", "no case in CloneNode's type switch")
+    + _panic(("CloneNode",), "Return", "no case in CloneNode's type switch")
+    + _panic(("CloneNode",), "Break", "CloneExpression(n.Label).(*ast.Identifier) on a nil label (break without label)")
+    + _panic(("CloneNode",), "Continue", "CloneExpression(n.Label).(*ast.Identifier) on a nil label (continue without label)")
+    + _panic(("CloneNode",), "Label", "CloneNode(n.Statement) on a label without statement (label at the end of a block)")
+    + _panic(("CloneNode",), "Block", "ClonePosition(nil): the blocks of a template {% if %} have no position")
+    + _panic(("CloneNode",), "Assignment", "the loop over n.Rhs stores into variables[i] (the Lhs slice): index out of range when len(Rhs) > len(Lhs), e.g. 'for range x'")
+    + [{"kind": "known", "signature": {"fam": "asttree", "op": "*", "cause": "copy-differs-children", "kind": "Assignment", "field": "Lhs"},
+        "what": "CloneNode(*ast.Assignment): the loop over n.Rhs stores into variables[i] instead of values[i] - the clone's Lhs holds clones of the Rhs and its Rhs is all nil"},
+       {"kind": "known", "signature": {"fam": "asttree", "op": "*", "cause": "copy-differs-scalar", "kind": "CompositeLiteral", "field": "parenthesis"},
+        "what": "CloneExpression(*ast.CompositeLiteral) returns before SetParenthesis: the parenthesis count of ([]int{1}) is lost"}]
+)
 
 
 def mc(ctx, wd):
